@@ -63,7 +63,7 @@ fn enc_arr<K: BufKind>(p: &[u8]) -> Result<Vec<u8>, OutOfMemory> {
 
 impl Prop for C07 {
     const ID: &'static str = "C07";
-    const RULE: &'static str = "payloads from G1 (token shapes, forced tails, length classes up to 70k/200k, or a length chosen so that the frame is within +-8 of a fixed capacity) x {encode::<Vec>, encode_streaming, encode::<ArrayBuf<N>>}; oracle: byte-identical to the independent reference frame R2, iterator stays None, OutOfMemory iff N < |frame|. Non-trivial: payload has a 0x1b run >= 4, or |p| >= 256, or the capacity is within +-4 of the frame length. Distinct = distinct (payload, capacity, extra calls).";
+    const RULE: &'static str = "payloads from G1 (token shapes, forced tails, length classes up to 70k/200k, or a length chosen so that the frame is within +-8 of a fixed capacity) x {encode::<Vec>, encode_streaming, encode::<ArrayBuf<N>>}; oracle: byte-identical to the independent reference frame R2, iterator stays None on 1..8 (sometimes 100..400 or 70000) further calls, OutOfMemory iff N < |frame|. Non-trivial: payload has a 0x1b run >= 4, or |p| >= 256, or the capacity is within +-4 of the frame length. Distinct = distinct (payload, capacity, extra calls).";
     type Case = Case;
     type Input = Input;
 
@@ -77,7 +77,7 @@ impl Prop for C07 {
             3 => sized_payload(big).prop_map(Mode::Natural),
             2 => (any::<u16>(), -12i8..13, payload_small(), any::<u64>()).prop_map(|(cap, delta, shape, seed)| Mode::NearCap { cap, delta, shape, seed }),
         ];
-        (mode, any::<u16>(), 1usize..9).prop_map(|(mode, cap_sel, extra)| Case { mode, cap_sel, extra }).boxed()
+        (mode, any::<u16>(), prop_oneof![12 => 1usize..9, 2 => 100usize..400, 1 => Just(70_000usize)]).prop_map(|(mode, cap_sel, extra)| Case { mode, cap_sel, extra }).boxed()
     }
 
     fn lower(c: &Case) -> Input {
@@ -193,7 +193,7 @@ impl Prop for C07 {
             let fl = crate::refmodel::transport::ref_frame_len(&p);
             // alternate between exactly fitting / just too small capacity where the set has it
             let cap = if idx % 2 == 0 { CAPS.iter().copied().find(|c| *c >= fl) } else { CAPS.iter().copied().rev().find(|c| *c < fl) };
-            if !f(&Input { payload: p.clone(), cap, extra: 2 }) {
+            if !f(&Input { payload: p.clone(), cap, extra: if idx % 97 == 0 { 300 } else { 2 } }) {
                 return;
             }
             idx += nshards as u64;
